@@ -1,7 +1,8 @@
 /-
   C20 — ITS pause and privileged operations are effective and correctly gated.
 -/
-import Axelar.Proofs.ItsMonad
+import Axelar.Proofs.ItsPause
+import Axelar.Proofs.ItsHistory
 import Axelar.Generated.ItsEndpoints
 namespace Axelar.Props.C20
 open Axelar Axelar.ItsW Axelar.Its Codec
@@ -53,10 +54,7 @@ theorem subcalls_do_not_touch_service_storage (C : Crypto) (cx : ICtx) (dst : By
 /-! ### Tie to the source: which Rust functions start with the pause check, and that every
     pausable endpoint reaches one of them -/
 
-def pausableEndpoints : List String :=
-  ["execute", "interchainTransfer", "callContractWithInterchainToken", "registerCanonicalInterchainToken",
-   "registerCustomToken", "deployInterchainToken", "deployRemoteInterchainToken",
-   "deployRemoteInterchainTokenWithMinter", "deployRemoteCanonicalInterchainToken", "linkToken"]
+def pausableEndpoints : List String := ItsW.pausableEndpoints
 
 /-- the endpoint's body starts with the check, or calls a function that does (one level of
     delegation through another endpoint function is followed) -/
@@ -81,6 +79,104 @@ theorem privileged_annotations :
     (∀ e ∈ Generated.itsEndpoints, (e.name = "setTrustedAddress" ∨ e.name = "removeTrustedAddress") → e.onlyOwner = true) ∧
     (∀ e ∈ Generated.itsEndpoints, e.name = "setFlowLimits" → e.firstCall = "only_operator") := by
   decide
+
+
+/-! ### At the level of the endpoint dispatcher and of the chain -/
+
+/-- **While paused, each of the ten pausable endpoints fails** — for every caller, argument list,
+    payment and world state (model of the whole dispatcher, not of one flow). -/
+theorem paused_endpoint_fails (C : Crypto) (cx : ICtx) (func : String) (args : List Bytes) (t : Tx)
+    (hf : func ∈ pausableEndpoints) (hp : t.w.its.paused = true) : call C cx func args t = none :=
+  call_paused C cx func args t hf hp
+
+/-- … and therefore a transaction that calls one of them while the service is paused is rolled
+    back as a whole: **the world after it is the world before it** (no state changed, no value
+    moved — not even the attached payment), whoever sends it and whatever it carries. -/
+theorem paused_transaction_changes_nothing (C : Crypto) (w : World) (src dst : Bytes) (func : String)
+    (egld : Nat) (esdt : List (Bytes × Nat × Nat)) (args : List Bytes)
+    (hk : w.kind dst = some .its) (hp : w.its.paused = true) (hf : func ∈ pausableEndpoints) :
+    World.tx C w src dst func egld esdt args = (w, .fail) := by
+  unfold World.tx
+  cases hpay : World.pay w src dst egld esdt with
+  | none => rfl
+  | some w1 =>
+    simp only [hk]
+    have hi := World.pay_its _ _ _ _ _ _ hpay
+    obtain ⟨_, hk1, _, _⟩ := World.pay_gw _ _ _ _ _ _ hpay
+    have hc : World.callContract C w1 src dst func egld esdt args = none := by
+      unfold World.callContract
+      rw [hk1, hk]
+      simp only [World.runIts]
+      rw [call_paused C _ func args { w := w1 } hf (by rw [hi]; exact hp)]
+    rw [hc]
+
+set_option maxRecDepth 4000 in
+/-- **Only the owner can pause, unpause, or add and remove trusted addresses**: a successful call
+    of one of these four endpoints was made by the contract's owner. -/
+theorem owner_operation_needs_owner (C : Crypto) (cx : ICtx) (func : String) (args : List Bytes) (t : Tx)
+    (r : List Bytes) (t' : Tx) (h : call C cx func args t = some (r, t')) (hf : func ∈ ownerOps) :
+    cx.caller = cx.owner := by
+  simp only [call, run_bind, run_getI] at h
+  split at h
+  all_goals (try (exfalso; simp [ownerOps] at hf; done))
+  split at h
+  · simp at h
+  · split at h
+    all_goals (try (exfalso; simp [ownerOps] at hf; done))
+    all_goals (
+      by_cases ho : (cx.caller == cx.owner) = true
+      · simpa using ho
+      · simp [ItsW.unit, ho] at h)
+
+set_option maxRecDepth 4000 in
+/-- **Only holders of the service's operator role can set flow limits.** -/
+theorem setFlowLimits_needs_operator (C : Crypto) (cx : ICtx) (args : List Bytes) (t : Tx) (r : List Bytes)
+    (t' : Tx) (h : call C cx "setFlowLimits" args t = some (r, t')) : isOperator t.w.its cx.caller = true := by
+  generalize hf : "setFlowLimits" = func at h
+  simp only [call, run_bind, run_getI] at h
+  split at h
+  all_goals (try (exact absurd hf (by decide)))
+  split at h
+  · simp at h
+  · split at h
+    all_goals (try (exact absurd hf (by decide)))
+    · cases htc : twoCounted args with
+      | none => simp [htc] at h
+      | some p =>
+        by_cases ho : isOperator t.w.its cx.caller = true
+        · exact ho
+        · simp [htc, ItsW.unit, ho] at h
+    · simp at h
+
+/-- **Over every schedule**: if an operation changed the pause flag or the trusted-address table,
+    it was a call of one of the four owner endpoints of the service made by the service's owner
+    (as a transaction, or as the delivery of a call the owner's contract had registered). -/
+theorem pause_flag_and_trusted_table_change_only_by_owner (C : Crypto) (w : World) (op : World.Op)
+    (h : (World.step C w op).its.paused ≠ w.its.paused ∨ (World.step C w op).its.trusted ≠ w.its.trusted) :
+    ∃ src dst func, World.Runs w op src dst func ∧ w.kind dst = some .its ∧ src = w.owner dst ∧
+      func ∈ ownerOps := by
+  rcases World.step_change C w op with hc | ⟨src, dst, func, hr, hk, ho, hf, _⟩ | ⟨src, dst, func, _, _, _, hs⟩
+  · rcases h with h | h
+    · exact absurd hc.paused h
+    · exact absurd hc.trusted h
+  · exact ⟨src, dst, func, hr, hk, ho, hf⟩
+  · rcases h with h | h
+    · exact absurd hs.paused h
+    · exact absurd hs.trusted h
+
+/-- **After unpausing, behaviour is as before**: the service's behaviour is a function of its
+    storage, and pause followed by unpause restores the storage exactly. -/
+theorem pause_then_unpause_restores (C : Crypto) (cx : ICtx) (t : Tx) (ho : cx.caller = cx.owner)
+    (hn : notPayable cx = true) (hu : t.w.its.paused = false) :
+    ∃ t1 t2, call C cx "pause" [] t = some ([], t1) ∧ t1.w.its.paused = true ∧
+      call C cx "unpause" [] t1 = some ([], t2) ∧ t2.w.its = t.w.its := by
+  have hc : (cx.caller == cx.owner) = true := by simp [ho]
+  refine ⟨{ t with w := { t.w with its := { t.w.its with paused := true } } },
+          { t with w := { t.w with its := { t.w.its with paused := false } } }, ?_, rfl, ?_, ?_⟩
+  · simp [call, hn, hc, ItsW.unit]; rfl
+  · simp [call, hn, hc, ItsW.unit]; rfl
+  · cases hs : t.w.its
+    simp_all
 
 /-! ### Non-vacuity (test) -/
 example : requireNotPaused { w := { its := { paused := false } } } ≠ none := by
